@@ -12,7 +12,30 @@ ENGINES = [
 ]
 
 # id -> dict(engine, category, text, note, technique, design)
+ENUM_TECH = "bounded exhaustive enumeration of a finite input alphabet on the real code against a reference model (explicit enumeration, no sampling)"
+E1_TECH = "stateless model checking of the implementation: cooperative scheduler over instrumented sources, DFS over all schedules with happens-before state caching (unbounded) or preemption bounding, deterministic replay"
+
 CLAIMS = {
+    "C01": dict(engine="seqx", category="exploration",
+        text="Every Unicode scalar value (1,112,064) in four positions is serialized by Event.Serialize and compared byte-for-byte with an independent NIP-01 serializer; a product of keys x kinds x timestamps x tag shapes x contents is signed with BIP-340 over the reference id and must verify; every single-bit flip of id/pubkey/sig and every single-field change of signed events must not verify. Exhaustive over these stated spaces.",
+        note="Trusted: refmodel/nip01ser.go (written from the NIP text, no encoding/json), btcec's schnorr signer as BIP-340 reference, SHA-256. The relay's admission gate (relay.go) is exercised by C12's check, not here.",
+        technique=ENUM_TECH, design="DESIGN.md §4 C01"),
+    "C09": dict(engine="vsched", category="model_checking",
+        text="All schedules (unbounded, complete up to happens-before state caching) of one real MergeHandler session over 2-3 scripted children, for every verdict table (accept / three kinds of rejection per child), count table and 7 client scripts including repeated ids in flight; oracle: one OK per EVENT with the right id, verdict and leading reason, one COUNT reply with the maximum.",
+        note="Scheduling points are synchronisation operations; sound for data-race-free code. Children are scripted stubs that honour the property's premise (one reply per request). Harness sizes: one session, <= 3 children, <= 3 requests.",
+        technique=E1_TECH, design="DESIGN.md §4 C09"),
+    "C10": dict(engine="seqx", category="exploration",
+        text="All token strings up to length 3/4 over a 34-token JSON alphabet (bare and inside 37 message frames), the complete single-point mutation neighbourhood of every valid test-data line and generated message, and a product of protocol values for all 14 message types, events and filters, through all 29 decoder entry points under recover(): no panic, completely filled values, decode-encode-decode stability, value round trip.",
+        note="Top-level/nested JSON null, duplicate keys' winner, non-integer number spellings are unclaimed. Validation (C11) is out of scope here.",
+        technique=ENUM_TECH, design="DESIGN.md §4 C10"),
+    "C11": dict(engine="seqx", category="exploration",
+        text="Generated well-formed client messages of every type with every optional part present/absent and insignificant whitespace at every structural position must pass the relay's admission composition (utf8/json valid, ParseClientMsg, ValidClientMsg); every single-point corruption that is admitted must decode to a value satisfying all NIP-01 constraints, checked on the value. Exhaustive over the generator's product.",
+        note="Trusted: the independent well-formedness predicate in checks/c11/wf.go. Unclaimed: JSON null for objects, exponent spellings, since>until, subscription-id length, U+000C.",
+        technique=ENUM_TECH, design="DESIGN.md §4 C11"),
+    "C20": dict(engine="seqx", category="exploration",
+        text="Product of Upgrade/Accept/method/path/mux configurations through ServeMux.ServeHTTP on a ResponseRecorder (relay path recognised by equality with Relay.ServeHTTP's own answer), and NIP-11 documents (2^16 present/absent product plus targeted structured values; kind ranges as numbers and pairs) through Marshal/Unmarshal and the HTTP handlers.",
+        note="Accept values that merely contain the media type or differ in case are unclaimed; headers are claimed only when a document is configured.",
+        technique=ENUM_TECH, design="DESIGN.md §4 C20"),
     "C02": dict(engine="seqx", category="exploration",
         text="Small-scope exhaustive enumeration: every (filter, event) pair and every filter list up to length 3 over a colliding alphabet, and every event sequence up to length 5 for the limit-counting matcher, each compared with a reference predicate written from the property text. Exhaustive over the stated alphabet, silent beyond it.",
         note="Trusted: the reference predicate in refmodel/filter.go; values outside the alphabet are not covered.",
@@ -52,7 +75,7 @@ def main():
         "hooks": {
             "guard": "verif",
             "enable": "go1.26.8 build -tags verif -overlay <generated overlay.json>: instrumented copies of /repo sources and //go:build verif accessor files are injected by go's -overlay; /repo itself carries no hooks",
-            "baseline_off_cmd": "cd /repo && GOFLAGS=-mod=mod GOPROXY=off GOSUMDB=off go test -vet=off -count=1 ./...",
+            "baseline_off_cmd": "cd /repo && GOFLAGS=-mod=mod GOPROXY=off GOSUMDB=off GOTOOLCHAIN=local go test -vet=off -count=1 ./...",
             "source_commits": [],
             "add_only": True,
         },
